@@ -356,6 +356,14 @@ EvalAt(items0, b) ==
         syms  |-> { [file |-> items[i].fname, inst |-> items[i].inst, name |-> NameOf(items, i), value |-> value(i),
                      label |-> items[i].s.k = "label", off |-> lay.offs[i]] : i \in syms }]
 
+(* '.include "i" <c> ".mac"': the digit of the file name is written as a symbol c that the same file defines as the character code
+   (before or after the directive: a name that is only known later keeps the whole directive pending) *)
+IncC(f, c) == [k |-> "include", f |-> f, c |-> c]
+SymNamesOK(fs) ==
+    \A q \in DOMAIN fs : \A r \in DOMAIN fs[q] :
+        (fs[q][r].k = "include" /\ "c" \in DOMAIN fs[q][r]) =>
+            Cardinality({ x \in DOMAIN fs[q] : fs[q][x].k = "const" /\ fs[q][x].n = fs[q][r].c }) = 1
+            /\ \E x \in DOMAIN fs[q] : fs[q][x].k = "const" /\ fs[q][x].n = fs[q][r].c /\ ~fs[q][x].x /\ fs[q][x].e = [t |-> "num", v |-> 48 + fs[q][r].f]
 SymCountsOK(fs) ==
     \A q \in DOMAIN fs : \A r \in DOMAIN fs[q] :
         (fs[q][r].k = "repeat" /\ "c" \in DOMAIN fs[q][r]) =>
@@ -377,7 +385,7 @@ Eval(fs) ==
     IN [items |-> items, insts |-> fl.insts, own |-> ob, bases |-> bases, runs |-> runs,
         ok  |-> ob.st # "err" /\ \A b \in bases : runs[b].ok,
         cyc |-> ob.cyc \/ \E b \in bases : runs[b].cyc,
-        skip |-> ob.unsure \/ DanglingExtern(items) \/ ~SymCountsOK(fs) \/ ~CondBaseOK(fs, items)]
+        skip |-> ob.unsure \/ DanglingExtern(items) \/ ~SymCountsOK(fs) \/ ~CondBaseOK(fs, items) \/ ~SymNamesOK(fs)]
 
 (* ------------------------------------------------------------------ alphabets (cfg: Alphabet <- XxxAlphabet) *)
 I0(op)          == [k |-> "insn", op |-> op]
@@ -525,6 +533,8 @@ LayoutCoreAlphabet ==  \* C02: the core of LayoutAlphabet, small enough for all 
     [k |-> "ascii", bs |-> <<65, 66, 67>>], Lab("a"), Const("n", Num(3)), DotSet(Bin("+", Dot, Num(5))), Rep(2, << W(<< B >>), [k |-> "ascii", bs |-> <<72, 105>>] >>),
     Inc(2), Lab("b"), [k |-> "asciic", cs |-> << [e |-> Sym("n")], [q |-> <<100, 101>>], [e |-> Num(10)] >>],
     [k |-> "asciic", cs |-> << [u |-> <<1078, 1091, 233>>], [e |-> Sym("n")] >>] }
+LayoutIncAlphabet ==   \* C02: an include whose file name is only known after a later symbol (the directive stays pending; everything behind it moves)
+  { IncC(2, "sx"), IncC(1, "sy"), Const("sx", Num(50)), Const("sy", Num(49)), Lab("a"), W(<<A, Dot>>), I1("movr", A), By(<< Num(1) >>), [k |-> "even"], Inc(2) }
 LayoutIncFiles == << [name |-> "i1", body |-> << Lab("x"), W(<< Sym("x"), Dot >>), By(<< Num(7) >>) >>],
                      [name |-> "i2", body |-> << W(<< Sym("y") >>), [k |-> "ascii", bs |-> <<79, 75, 33>>], Lab("y"), By(<< Bin("-", Dot, Sym("y")) >>) >>],
                      [name |-> "i3", body |-> << By(<< Num(3) >>), Inc(2), [k |-> "even"], Lab("z"), W(<< Sym("z"), Dot >>) >>],          \* include depth 2
